@@ -13,7 +13,7 @@ from vpbt.core import Collector, h64
 
 PID = "C14"
 RULE = (
-    "Cases: histories drawn by a Hypothesis RuleBasedStateMachine. Initial state: a closed CFG from closed_cfgs(max_n=9), flat, after "
+    "Cases: histories drawn by a Hypothesis RuleBasedStateMachine. Initial state: a closed CFG from closed_cfgs(max_n=9), flat, flat with typed blocks (some blocks already synthetic tails / exits / fills / branching blocks with value tables, as a dict or YAML input may spell them), after "
     "join_returns+restructure_loop or after the full pipeline (so that top-level predecessors include regions - also regions whose exiting block is again a region - and branching synthetic blocks). Rules: insert_block and its "
     "four typed wrappers with drawn predecessors P (1-3 top-level blocks) and successors S (non-empty subset of P's successors; S=[] only with exit "
     "blocks as predecessors), insert_block_and_control_blocks, join_returns, join_tails_and_exits (documented cardinalities), and a rule that switches the (sub)graph the operations act on to any region's sub-graph (successors are then drawn inside that level). After every step the real "
@@ -48,7 +48,7 @@ def _mk_machine(col, max_n, raise_sig=None):
                 if raise_sig is not None and sig == raise_sig:
                     raise AssertionError(sig)
 
-        @initialize(g=gg.closed_cfgs(max_n=max_n, min_n=3), pre=st.sampled_from(["flat", "loop", "loop", "branch"]), style=st.sampled_from(["num", "bytecode"]))
+        @initialize(g=gg.closed_cfgs(max_n=max_n, min_n=3), pre=st.sampled_from(["flat", "loop", "loop", "branch", "typed", "typed"]), style=st.sampled_from(["num", "bytecode"]))
         def init(self, g, pre, style):
             self._apply(["init", gg.graph_to_json(gg.restyle(g, style)), pre])
 
@@ -122,6 +122,24 @@ def _mk_machine(col, max_n, raise_sig=None):
             exits = data.draw(st.lists(st.sampled_from(cand), min_size=1, max_size=mx, unique=True), label="exits")
             self._apply(["jte", tails, exits])
 
+        @precondition(lambda self: not self.dead)
+        @rule(data=st.data())
+        def jte_preds(self, data):
+            # the natural use: join (some of) the blocks that jump to one exit block - they may also jump to one another
+            top = self.ex.top()
+            preds = {}
+            for k in sorted(top):
+                for t in top[k]["jt"]:
+                    if t not in top[k]["be"] and t in top and t != k:
+                        preds.setdefault(t, []).append(k)
+            cands = sorted(e for e, ps in preds.items() if len(set(ps)) >= 2)
+            if not cands:
+                return
+            e = data.draw(st.sampled_from(cands), label="exit")
+            ps = sorted(set(preds[e]))
+            tails = data.draw(st.lists(st.sampled_from(ps), min_size=2, max_size=min(4, len(ps)), unique=True), label="tails")
+            self._apply(["jte", tails, [e]])
+
         @precondition(lambda self: self.dead)
         @rule()
         def noop(self):
@@ -152,7 +170,7 @@ def run(spec):
 
 def plan(tier, seed):
     if tier == "quick":
-        return [("sm", seed, s, 300, 8, 9) for s in range(16)]
+        return [("sm", seed, s, 400, 8, 9) for s in range(16)]
     return [("sm", seed, s, 1500, 10, 14) for s in range(32)]
 
 
